@@ -33,7 +33,8 @@ Inductive case :=
 | CanonDenom (lo hi v : Z) (o : option bool)        (* None = no answer within the timeout (regression cases for the fixed zero-bound hang) *)
 | Wakeups (margin jitter tip : Z) (ts : list (Z * Z * Z)) (ws : list Z) (bf : option Z) (o : wres)
 | Shift (oc : bool) (iv served : Z) (pre : list stx) (ws : list Z) (o : dres (list stx))
-| Rebuild (oc : bool) (iv cap nu63 funding tip : Z) (pend ws ds : list Z) (o : outcome (Z * Z * option Z) unit).
+| Rebuild (oc : bool) (iv cap nu63 funding tip : Z) (pend ws ds : list Z) (o : outcome (Z * Z * option Z) unit)
+| Plumb (src iv : Z) (cfg : option (Z * Z * Z * Z)) (o : Z * Z * Z * Z * Z).   (* src: 0 SchedulingParams::new, 1 adapter with delays, 2 adapter default, 3 new_with_default_distributions *)
 
 (** equalities *)
 Definition unit_eqb (_ _ : unit) := true.
@@ -64,6 +65,10 @@ Definition wakeups_consumed (ws : list Z) (r : outcome (list (Z * list Z) * list
   | Panic => Panic
   end.
 
+Definition quint_eqb (x y : Z * Z * Z * Z * Z) : bool :=
+  let '(a, b, c, d, e) := x in let '(a', b', c', d', e') := y in
+  (a =? a') && (b =? b') && (c =? c') && (d =? d') && (e =? e').
+
 Definition run_case (c : case) : bool :=
   match c with
   | Expiry h o => expiry_height h =? o
@@ -91,6 +96,7 @@ Definition run_case (c : case) : bool :=
   | Shift oc iv served pre ws o => dres_eqb (list_eqb stx_eqb) (consumed ws (advance_overdue oc iv served pre ws)) o
   | Rebuild oc iv cap nu63 funding tip pend ws ds o =>
       outcome_eqb (pair_eqb zz_eqb oz_eq) unit_eqb (rebuild_schedule oc iv cap nu63 funding tip pend ws ds) o
+  | Plumb _ iv cfg o => quint_eqb (scheduling_params iv cfg) o
   end.
 
 (** The property on the implementation's outcome. A [Panic] of a drawing function can only be
@@ -140,6 +146,7 @@ Definition prop_case (c : case) : bool :=
   | Shift _ iv served pre ws o => on_ok o (fun post k => shift_ok iv served pre post && (0 <=? k) && (k <=? Z.of_nat (length ws)))
   | Rebuild _ iv cap nu63 funding tip pend ws ds o =>
       match o with Ok row => rebuild_ok iv cap nu63 funding tip pend row | Err _ => true | Panic => true end
+  | Plumb _ iv cfg o => params_ok iv cfg o
   end.
 
 (** Known-finding classes.
@@ -224,6 +231,7 @@ Definition tag_caseZ (c : case) : Z :=
           if negb (ex =? expiry_spec (Z.min u32_max (tip + 1))) then 71
           else if Z.min u32_max (tip + 1) <? fold_left Z.max pend 0 then 72 else 70
       end
+  | Plumb src _ _ _ => 73 + src                                                   (* 73..76 *)
   end.
 
 Definition tag_case (c : case) : N := Z.to_N (tag_caseZ c).
